@@ -740,8 +740,11 @@ func (wd *world) forget(t *txrec) {
 // broadcast submits the signed transaction: v1 with its unconfirmed parents to
 // AddPoolTransactions, v2 as its V2TransactionSet through the wallet's BroadcastV2TransactionSet
 // (which also persists the set for re-loading after a restart).
-func (wd *world) broadcast(t *txrec) (e ev) {
-	e = ev{"op": "Bcast", "tid": t.tid}
+func (wd *world) broadcast(t *txrec, pre ...bool) (e ev) {
+	// pre: the caller validates the set with AddV2PoolTransactions before it hands it to the
+	// wallet (as the rhp4 handlers do), so the pool already knows it when the wallet broadcasts
+	prevalidate := len(pre) > 0 && pre[0] && t.ver == 2
+	e = ev{"op": "Bcast", "tid": t.tid, "pre": prevalidate}
 	// chain.Manager.UnconfirmedParents / V2TransactionSet share one parent map between the v1 and
 	// the v2 pool slice and can index the wrong one (panic) when the parent has the other version
 	defer func() {
@@ -788,7 +791,12 @@ func (wd *world) broadcast(t *txrec) (e ev) {
 					}
 				}
 			}
-			err = wd.w.BroadcastV2TransactionSet(basis, set)
+			if prevalidate {
+				_, err = wd.cm.AddV2PoolTransactions(basis, set)
+			}
+			if err == nil {
+				err = wd.w.BroadcastV2TransactionSet(basis, set)
+			}
 		}
 	}
 	if err != nil && misordered {
